@@ -14,9 +14,21 @@ from .ty import SV, parse_type
 
 
 def prove_lemmas(names, prop, tier):
-    out = {}
+    """Each lemma is decided in its own process (they are independent)."""
     if not names:
-        return out
+        return {}
+    import multiprocessing as mp
+    with mp.get_context('fork').Pool(min(6, len(names))) as pool:
+        parts = pool.map(_prove_some, [([nm], prop, tier) for nm in names], chunksize=1)
+    out = {}
+    for p in parts:
+        out.update(p)
+    return out
+
+
+def _prove_some(args):
+    names, prop, tier = args
+    out = {}
     R = registry()
     for nm in names:
         L = R.lemmas[nm]
@@ -24,9 +36,12 @@ def prove_lemmas(names, prop, tier):
                    model='', reason='')
         res = {}
         for finite in (True, False):
+            if not finite and res.get(True, ('',))[0] == 'refuted':
+                res[False] = ('skipped', '', 0.0, False)
+                continue
             ctx = Ctx(finite, scope=dict(R.scope), enums=dict(R.enums))
             ctx.infinite_sorts = set(getattr(R, 'infinite_sorts', ()))
-            e = Exec(R, ctx, None, prop=None, timeout_ms=30000 if tier == 'quick' else 300000)
+            e = Exec(R, ctx, None, prop=None, timeout_ms=300000 if tier == 'quick' else 900000)
             e.reveal_all = True          # lemmas are about the spec functions themselves: their definitions are unfolded
             install_axioms(e)
             st = State()
